@@ -2,6 +2,7 @@ SPECIFICATION SSpec
 CONSTANTS
   Line = 2
   NCaches = 2
+  TrackWrites = TRUE
   MaxInFlight = 4
   MCReqs <- MCReqSet
   MaxReq = 6
